@@ -82,6 +82,9 @@ def gen(tier, rng, harness=None):
     # cached-type state (not part of the slot model): fields feeding a lazily computed type are edited after construction, with and without
     # interleaved pure observers (Type / String / Ident): the printed module must not depend on the observers
     lines = ["!hist.fobs %s" % k for k in FIELD_KINDS]
+    # constructed modules that must print the same text twice in a row (a forward blockaddress of an unnamed block with and without global variables in the
+    # module; float constants of every kind, whose printing must not change the value they hold)
+    lines += ["!hist.twice %s" % k for k in C.run_lines([harness, "run"], ["hist.twice.list"])[0].split(",")]
     # renaming after a print / after pure queries of a constant expression (harness/ops_rename.go)
     for name in C.run_lines([harness, "run"], ["rename.list"])[0].split(","):
         for mode in "012":
